@@ -105,14 +105,62 @@ pub fn parse_output(out: &str, dot: bool, undirected: bool) -> Result<Vec<(Strin
         }
     } else {
         for l in out.lines() {
-            let (a, b) = l.split_once(',').ok_or_else(|| format!("malformed edge line {:?}", l))?;
-            if b.contains(',') {
-                return Err(format!("edge line with more than two fields {:?}", l));
+            let f = csv_fields(l)?;
+            if f.len() != 2 {
+                return Err(format!("edge line with {} fields {:?}", f.len(), l));
             }
-            edges.push((a.to_string(), b.to_string()));
+            edges.push((f[0].clone(), f[1].clone()));
         }
     }
     Ok(edges)
+}
+
+/// one CSV record (RFC 4180): fields separated by commas, optionally enclosed in double quotes
+/// with `""` for a quote inside
+fn csv_fields(line: &str) -> Result<Vec<String>, String> {
+    let cs: Vec<char> = line.trim_end_matches('\r').chars().collect();
+    let mut out = Vec::new();
+    let mut i = 0usize;
+    loop {
+        let mut f = String::new();
+        if i < cs.len() && cs[i] == '"' {
+            i += 1;
+            loop {
+                if i >= cs.len() {
+                    return Err(format!("unterminated quoted field in {:?}", line));
+                }
+                if cs[i] == '"' {
+                    if i + 1 < cs.len() && cs[i + 1] == '"' {
+                        f.push('"');
+                        i += 2;
+                        continue;
+                    }
+                    i += 1;
+                    break;
+                }
+                f.push(cs[i]);
+                i += 1;
+            }
+            if i < cs.len() && cs[i] != ',' {
+                return Err(format!("text after a closing quote in {:?}", line));
+            }
+        } else {
+            while i < cs.len() && cs[i] != ',' {
+                f.push(cs[i]);
+                i += 1;
+            }
+        }
+        out.push(f);
+        if i >= cs.len() {
+            break;
+        }
+        i += 1; // the comma
+        if i == cs.len() {
+            out.push(String::new());
+            break;
+        }
+    }
+    Ok(out)
 }
 
 fn run_tool(args: &[String]) -> cli::Output {
